@@ -43,16 +43,16 @@ Proof. intros H. cbn. unfold int_or_float. now rewrite H. Qed.
 Lemma int_or_float_sound exact fl v :
   int_or_float exact fl = v ->
   (v = VInt exact /\ in_i64 exact = true) \/
-  (in_i64 exact = false /\ v = VFloat fl).
+  (in_i64 exact = false /\ v = from_float fl).
 Proof. unfold int_or_float. destruct (in_i64 exact); intros <-; [left | right]; auto. Qed.
 
-(** outside the i64 range the result is the float computation, kept a float
-    (even when that float is itself an integral in-range value such as -2^63) *)
+(** outside the i64 range the result is the float computation, which can only
+    be an Int if that float is itself an exactly integral in-range value *)
 Lemma vadd_int_overflow a b :
-  in_i64 (a + b) = false -> vadd (VInt a) (VInt b) = Ok (VFloat (fadd (f_of_Z a) (f_of_Z b))).
+  in_i64 (a + b) = false -> vadd (VInt a) (VInt b) = Ok (from_float (fadd (f_of_Z a) (f_of_Z b))).
 Proof. intros H. cbn. unfold int_or_float. now rewrite H. Qed.
 Lemma vmul_int_overflow a b :
-  in_i64 (a * b) = false -> vmul (VInt a) (VInt b) = Ok (VFloat (fmul (f_of_Z a) (f_of_Z b))).
+  in_i64 (a * b) = false -> vmul (VInt a) (VInt b) = Ok (from_float (fmul (f_of_Z a) (f_of_Z b))).
 Proof. intros H. cbn. unfold int_or_float. now rewrite H. Qed.
 
 (** *** division and mixed operands: IEEE double, then normalised *)
